@@ -333,31 +333,29 @@ func Run(ctx *common.Ctx) {
 	maxSeen := 0
 	w := startWorker(ctx.OutDir)
 	defer func() { w.stop() }()
-	for n := 0; len(terms) < ncases && n < 3*ncases && len(ctx.Meta.Direct) < 60; n++ {
-		kbase += 1000
-		g := &gen{r: ctx.Rng, k: kbase, prefix: fmt.Sprintf("c%d", n), hist: ctx.Hist, errs: ctx.Rng.Chance(10)}
-		forms := g.program()
+	// one program: evaluated by the interpreter (worker), written as a case; false = not recorded
+	emit := func(forms []node, kbase int64) bool {
 		src := joinLines(forms)
 		if len(src) > 1500 {
 			ctx.Hist("discard:long-program")
-			continue
+			return false
 		}
 		r := w.eval(request{Src: src, Lo: kbase, Hi: kbase + 1000})
 		if r.Crashed {
 			ctx.Violate("the interpreter brought down (or blocked) the host process", src, "worker process died", nil)
 			w.stop()
 			w = startWorker(ctx.OutDir)
-			continue
+			return false
 		}
 		if r.Kind == "timeout" {
 			// generated programs always terminate: a hang is a failure of the interpreter
 			ctx.Violate("evaluation does not terminate", src, "timeout", nil)
-			continue
+			return false
 		}
 		trace := r.Trace
 		if len(trace) > 400 {
 			ctx.Hist("discard:long-trace")
-			continue
+			return false
 		}
 		if r.Evals > maxSeen {
 			maxSeen = r.Evals
@@ -380,10 +378,25 @@ func Run(ctx *common.Ctx) {
 		if len(terms)%97 == 5 {
 			ctx.Sample(d)
 		}
+		return true
+	}
+	// the enumerated block: every single-value position x every producer of zero / one / two values (the same
+	// programs on every run; trace ids 0..999)
+	block, blockNames := singleValueBlock()
+	for i, forms := range block {
+		if emit(forms, 0) {
+			ctx.Hist("single-value-position:" + strings.SplitN(blockNames[i], " <- ", 2)[0])
+		}
+	}
+	nblock := len(terms)
+	for n := 0; len(terms) < nblock+ncases && n < 3*ncases && len(ctx.Meta.Direct) < 60; n++ {
+		kbase += 1000
+		g := &gen{r: ctx.Rng, k: kbase, prefix: fmt.Sprintf("c%d", n), hist: ctx.Hist, errs: ctx.Rng.Chance(10)}
+		emit(g.program(), kbase)
 	}
 	ctx.Meta.DistinctNontrivial = len(distinct)
 	ctx.Meta.Extra = map[string]any{"max_function_evals_in_one_program": maxSeen, "function_eval_limit": maxEvals}
-	ctx.Meta.Rule = "typed random programs (nesting depth <= 6, 30-80 nodes; up to 2 preceding defuns, some recursive on a counter, some closed over let variables, some with function parameters; function-valued expressions returned through every control form; lambdas and defuns inside scopes without bindings; idioms: closure made in a random creation context and called under a rebinding of its variable, closures over one binding, closures made in loop bodies, do without variables) over constants, variables, quote of arbitrary data, progn, prog1, if, when, unless, cond, case, and, or, let, let*, setq, lambda, funcall, apply, mapcar, function designators, dolist, dotimes, do, do*, values, multiple-value-bind and integer/list built-ins, with (tr k e) probes in every evaluated position and reuse of variable names (shadowing); observable = value(s) or condition class + trace; distinct = distinct programs whose trace is not empty"
+	ctx.Meta.Rule = "an enumerated block (every single-value position of the modelled language x eleven producers of zero, one and two values, about 450 programs, the same on every run) followed by typed random programs (nesting depth <= 6, 30-80 nodes; up to 2 preceding defuns, some recursive on a counter, some closed over let variables, some with function parameters; function-valued expressions returned through every control form; lambdas and defuns inside scopes without bindings; idioms: closure made in a random creation context and called under a rebinding of its variable, closures over one binding, closures made in loop bodies, do without variables) over constants, variables, quote of arbitrary data, progn, prog1, if, when, unless, cond, case, and, or, let, let*, setq, lambda, funcall, apply, mapcar, function designators, dolist, dotimes, do, do*, values, multiple-value-bind and integer/list built-ins, with (tr k e) probes in every evaluated position and reuse of variable names (shadowing); observable = value(s) or condition class + trace; distinct = distinct programs whose trace is not empty"
 	header := "From C01 Require Import Model Corr.\nOpen Scope string_scope.\n"
 	footer := "Definition res := Eval vm_compute in check_all cases.\nPrint res.\n" +
 		"Definition guarded := Eval vm_compute in guard_count cases.\nPrint guarded.\n" +
